@@ -166,7 +166,7 @@ PLAN = {
         "level": "exploration",
         "engines": lambda tier: [_e("release", "schemamc", "c15")] + [
             _e("release", "schemamc", "c15", "--large", sizes, env=_rayon(t))
-            for (sizes, t) in ([("32,300,1500", 1), ("32,300,1000,2049", 16)] if tier == "quick" else [("32,300,1000,1500,20000", 1), ("32,300,1000,2049,20000", 2), ("32,300,1000,1500,2049,20000", 16)])
+            for (sizes, t) in ([("32,300,1500", 1), ("32,300,1000,2049,66000", 16)] if tier == "quick" else [("32,300,1000,1500,20000,66000", 1), ("32,300,1000,2049,20000", 2), ("32,300,1000,1500,2049,20000,66000", 16)])
         ],
         "assumptions": [
             "all reference graphs x insertion orders are enumerated up to n=4 (quick) / n=5 (thorough); larger stores use structured graphs",
